@@ -18,12 +18,17 @@ LEAVE = ('ReturnStmt', 'CXXThrowExpr', 'BreakStmt', 'ContinueStmt')
 CONVERTERS = ('saturating_cast',)
 
 
+_ALIASES = {}
+
+
 def canon(n):
     """Canonical path of an lvalue-ish expression, or None."""
     n = strip(n, explicit=True)
     k = n.get('kind')
     if k == 'DeclRefExpr':
         ref = n.get('referencedDecl') or {}
+        if ref.get('id') in _ALIASES:
+            return _ALIASES[ref.get('id')]
         return '#%s:%s' % (ref.get('id'), ref.get('name'))
     if k == 'CXXThisExpr':
         return 'this'
@@ -437,6 +442,27 @@ class Walker:
 
     def run(self):
         _CUR_TU[0] = getattr(self.func, 'tu', None)
+        self._immediate = set()
+        _ALIASES.clear()
+        if self.func.body is not None:
+            for x in walk(self.func.body):
+                if x.get('kind') in ('CallExpr', 'CXXMemberCallExpr', 'CXXOperatorCallExpr'):
+                    for a in children(x)[1:]:
+                        y = strip(a)
+                        while y.get('kind') in ('MaterializeTemporaryExpr', 'CXXBindTemporaryExpr', 'ExprWithCleanups',
+                                                'CXXConstructExpr', 'CXXFunctionalCastExpr') and len(children(y)) == 1:
+                            y = strip(children(y)[0])
+                        if y.get('kind') == 'LambdaExpr':
+                            self._immediate.add(id(y))
+            # `const auto last = v.end();` - a name for the end of a container
+            from .program import single_assignment_locals
+            for vid, init in single_assignment_locals(self.func.node).items():
+                e = strip(init, explicit=True)
+                if e.get('kind') == 'CXXMemberCallExpr' and strip(children(e)[0]).get('name') in ('end', 'cend') \
+                        and len(children(e)) == 1:
+                    c = canon(e)
+                    if c:
+                        _ALIASES[vid] = c
         if self.func.body is not None:
             self.stmt(self.func.body, set())
 
@@ -625,8 +651,10 @@ class Walker:
         if k == 'LambdaExpr':
             body = [c for c in children(n) if c.get('kind') == 'CompoundStmt']
             if body:
-                # a lambda may run later / repeatedly: only facts about constants survive; be conservative
-                self.stmt(body[-1], set())
+                # a lambda may run later / repeatedly: only facts about constants survive; be conservative -
+                # unless it is written as an argument of a call (std::any_of(.., [&]{..}), a statement sink): then
+                # it runs during that call, under the facts that hold there
+                self.stmt(body[-1], set(facts) if id(n) in self._immediate else set())
             return facts
         self.visit(n, facts, self.func)
         if k == 'ConditionalOperator':
